@@ -268,12 +268,13 @@ def check(run):
                 run.sample(s)
                 break
     run.cov["rule"] = ("hist: histories of 5-18 Configurator operations (AddOrUpdate{Ingress,MergeableIngress,VirtualServer(+VSR),TransportServer(incl. TLS "
-                       "passthrough)}, Delete*, UpdateVirtualServers/TransportServers, BatchDelete*, AddOrUpdateResources, UpdateConfig) over 7-15 "
+                       "passthrough)}, Delete*, UpdateVirtualServers/TransportServers, BatchDelete*, AddOrUpdateResources, UpdateConfig, UpdateEndpoints*) over 7-15 "
                        "resource identities with DNS-legal namespaces/names biased to '-' and '.', colliding Ingress pairs (classes collide*), the same "
                        "key used as Ingress+VS+TS, and a simulated restart at a random point (classes restart-*: cluster unchanged/updated/extended, "
-                       "or with deletions while down); observed after EVERY event: listings of conf.d and stream-conf.d with content stamp, parsed "
+                       "or with deletions while down) or at EVERY point of a base history (classes everypoint-*); 1/4 of the histories with the NGINX Plus "
+                       "templates; observed after EVERY event: listings of conf.d and stream-conf.d with content stamp, parsed "
                        "tls-passthrough-hosts.conf, keys of the Configurator's maps.  names: the seven naming functions on arbitrary byte strings. "
-                       "A case is distinct by its full input; a history is nontrivial when some step has a non-empty listing.")
+                       "startup: syntactic census of main.go / manager.go.  A case is distinct by its full input; a history is nontrivial when some step has a non-empty listing.")
     run.cov["trusted_base"] = TRUSTED
     run.assumptions += [
         "hosts of simultaneously served TLS-passthrough TransportServers are distinct (guaranteed upstream by host arbitration, C02); the generator never shares a host between two TransportServers",
